@@ -339,3 +339,126 @@ func c02NegationAndDictionaryPass(c *core.Ctx, r *core.Report) {
 	}
 	r.Floor("GUARD", "hits added on paths where the filter is negated", n, 1)
 }
+
+// (13) FLOATVIEW — a DtypeEnclosure carries one number in three views (SignedVal, UnsignedVal, FloatVal) and a tag
+// saying which one is the number; the comparison code reads the float view whenever the other operand is a float.
+// Wherever code fills the float view of an enclosure whose tag it has just set, the float must be computed from the
+// member the tag selects: the unsigned view of a negative number (and the signed view of a number above MaxInt64)
+// is a wrapped value, so a float made from it is a different number.  For every store into FloatVal in the
+// repository whose value is traced (through float conversions and ConvertToFloatAndReturnString) to a load of
+// SignedVal / UnsignedVal of the same enclosure, or through a sign-changing integer conversion, the tag stored
+// last on the same enclosure before it (same function, dominating) must be the matching one.
+func c02FloatView(c *core.Ctx, r *core.Report) {
+	fltF := c.Field(pkgSutils, "DtypeEnclosure.FloatVal")
+	sgnF := c.Field(pkgSutils, "DtypeEnclosure.SignedVal")
+	unsF := c.Field(pkgSutils, "DtypeEnclosure.UnsignedVal")
+	tagF := c.Field(pkgSutils, "DtypeEnclosure.Dtype")
+	kSigned, kUnsigned := c.ConstVal(pkgSutils, "SS_DT_SIGNED_NUM"), c.ConstVal(pkgSutils, "SS_DT_UNSIGNED_NUM")
+	isSignedInt := func(t types.Type) bool {
+		b, ok := t.Underlying().(*types.Basic)
+		return ok && b.Info()&types.IsInteger != 0 && b.Info()&types.IsUnsigned == 0
+	}
+	isUnsignedInt := func(t types.Type) bool {
+		b, ok := t.Underlying().(*types.Basic)
+		return ok && b.Info()&types.IsUnsigned != 0
+	}
+	// source: which member the float is made from ("signed", "unsigned", "" unknown) and whether the chain
+	// changes sign interpretation on the way
+	var source func(v ssa.Value, base ssa.Value, depth int) (string, bool)
+	source = func(v ssa.Value, base ssa.Value, depth int) (string, bool) {
+		if depth > 8 || v == nil {
+			return "", false
+		}
+		switch x := v.(type) {
+		case *ssa.Convert:
+			m, flip := source(x.X, base, depth+1)
+			if (isSignedInt(x.X.Type()) && isUnsignedInt(x.Type())) || (isUnsignedInt(x.X.Type()) && isSignedInt(x.Type())) {
+				flip = true
+			}
+			if m == "" {
+				switch {
+				case isSignedInt(x.X.Type()):
+					m = "signed"
+				case isUnsignedInt(x.X.Type()):
+					m = "unsigned"
+				}
+			}
+			return m, flip
+		case *ssa.MakeInterface:
+			return source(x.X, base, depth+1)
+		case *ssa.Extract:
+			if call, ok := x.Tuple.(*ssa.Call); ok && x.Index == 0 {
+				if f := core.CalleeFunc(call); f != nil && f.Name() == "ConvertToFloatAndReturnString" && len(call.Call.Args) > 0 {
+					return source(call.Call.Args[0], base, depth+1)
+				}
+			}
+		case *ssa.UnOp:
+			if fa, ok := x.X.(*ssa.FieldAddr); ok && x.Op == token.MUL && fa.X == base {
+				switch core.FieldOfAddr(fa) {
+				case sgnF:
+					return "signed", false
+				case unsF:
+					return "unsigned", false
+				}
+			}
+		}
+		return "", false
+	}
+	n := 0
+	perFn := map[string]int{}
+	for _, fn := range c.RepoFunctions() {
+		for _, b := range fn.Blocks {
+			for i, in := range b.Instrs {
+				st, ok := in.(*ssa.Store)
+				if !ok {
+					continue
+				}
+				fa, ok := st.Addr.(*ssa.FieldAddr)
+				if !ok || core.FieldOfAddr(fa) != fltF {
+					continue
+				}
+				base := fa.X
+				// the tag stored last on this enclosure: earlier in this block, else in a dominating block
+				tag := int64(-1)
+				find := func(blk *ssa.BasicBlock, upto int) bool {
+					for j := upto - 1; j >= 0; j-- {
+						if ts, ok := blk.Instrs[j].(*ssa.Store); ok {
+							if tfa, ok := ts.Addr.(*ssa.FieldAddr); ok && tfa.X == base && core.FieldOfAddr(tfa) == tagF {
+								if k, ok := core.ConstIntValue(ts.Val); ok {
+									tag = k
+								}
+								return true
+							}
+						}
+					}
+					return false
+				}
+				if !find(b, i) {
+					for d := b.Idom(); d != nil; d = d.Idom() {
+						if find(d, len(d.Instrs)) {
+							break
+						}
+					}
+				}
+				if tag != kSigned && tag != kUnsigned {
+					continue
+				}
+				member, flip := source(st.Val, base, 0)
+				if member == "" {
+					continue
+				}
+				n++
+				perFn[shortFn(fn)]++
+				want := "signed"
+				if tag == kUnsigned {
+					want = "unsigned"
+				}
+				construct := fmt.Sprintf("%s:float-view#%d-made-from-the-%s-member", shortFn(fn), perFn[shortFn(fn)], want)
+				r.Check(member == want && !flip, "TAGUNION", construct, c.Pos(st.Pos()),
+					"the float view is computed from the member the tag just stored selects",
+					fmt.Sprintf("the enclosure is tagged as a %s number but its float view is computed from the %s view (or through a sign-changing conversion): for a negative number (resp. one above MaxInt64) that view is a wrapped value, so comparisons with a float operand use a different number (col > -1 matches nothing on a float column)", want, member))
+			}
+		}
+	}
+	r.Floor("TAGUNION", "float views filled next to a tag", n, 2) // consolidating the twelve sites into two helpers is a legitimate clean-up
+}
